@@ -465,3 +465,52 @@ func VH_C19_Split() {
 		symAssert(flags == "", "no-part-contains-the-separator")
 	}
 }
+
+// ---- C19.chain: the equations hold at every position of a filter chain and on every use --------------
+
+// VH_C19_Chain: reverse and sort applied after a filter that hands its input on (default, raw, first of
+// a list of lists, last, merge with nothing, slice of everything) or in a for sequence, twice in one
+// template and once more in a second render of the same data: every application is the equation applied
+// to the original list, and the list itself still prints as it was.
+func VH_C19_Chain() {
+	n := 1 + symChoice(symParam("N", 3))
+	xs, ss := vhList(n, "abc")
+	rev := make([]string, n)
+	for i := range ss {
+		rev[n-1-i] = ss[i]
+	}
+	sorted := append([]string{}, ss...)
+	for i := 0; i < n; i++ {
+		for j := i + 1; j < n; j++ {
+			if sorted[j] < sorted[i] {
+				sorted[i], sorted[j] = sorted[j], sorted[i]
+			}
+		}
+	}
+	pre := []string{"xs|default([])", "xs|raw", "nest|first", "nest|last", "xs|merge([])", "xs|slice(0)", "nosuch|default(xs)", "holder.items", "xs|default([])|raw"}
+	p := symChoice(len(pre))
+	symTag("prefix:" + pre[p])
+	sortOp := symBool()
+	op, want := "reverse", vhJoin(rev, ",")
+	if sortOp {
+		op, want = "sort", vhJoin(sorted, ",")
+	}
+	e := New()
+	src := "{{ " + pre[p] + "|" + op + "|join(',') }};{{ " + pre[p] + "|" + op + "|join(',') }};{% for v in " + pre[p] + "|" + op + " %}{{ v }},{% endfor %};{{ xs|join(',') }};{{ (" + pre[p] + "|" + op + ")|first }}"
+	if e.RegisterString("t", src) != nil {
+		symAssert(false, "template-parses")
+		return
+	}
+	ctx := map[string]interface{}{"xs": xs, "nest": []interface{}{xs, xs}, "holder": map[string]interface{}{"items": xs}}
+	first := rev[0]
+	if sortOp {
+		first = sorted[0]
+	}
+	expect := want + ";" + want + ";" + want + ",;" + vhJoin(ss, ",") + ";" + first
+	o1, e1 := e.Render("t", ctx)
+	o2, e2 := e.Render("t", ctx)
+	symCover("rendered")
+	symAssert(e1 == nil && e2 == nil, "no-error")
+	symAssert(o1 == expect, "equation-holds-in-a-chain")
+	symAssert(o2 == expect, "equation-holds-on-the-second-render")
+}
